@@ -316,6 +316,11 @@ def run(ctx):
     ctx.check(not any('strip()' in a.text and ("''" in a.text) for p in paths for a, v in p.decisions), 'C08.3', 'eof-test:not-on-stripped', f_pa.loc(),
               'no exit decision is taken on the stripped line', 'an exit decision tests the stripped line: blank lines end the input')
 
+    # a decoded message yields its one output item only if the connection hands it to its listeners: exactly once, after resolving, on every
+    # normal path and not inside a block whose handler would swallow the hand-over - the notification rules of C06.3 are findings here
+    from . import common as _common8, c06 as _c06
+    _common8.lift(ctx, 'C08.1', 'message-reaches-the-display', _c06, 'C06', ('C06.3',),
+                  'every decoded message must reach the display exactly once', key_filter=lambda k: k.startswith('connection:') or 'notify' in k, floor=1)
     # ---- C08.4 --supress ------------------------------------------------------------------------------------------------
     reads = []
     for f in repo.all_funcs():
